@@ -984,6 +984,13 @@ func (s *PrintCtx) pcAppendQuotedStringValue(str string) {
 }
 
 func (s *PrintCtx) appendQuotedString(str string) {
+	if s.jsonMode {
+		// Go-syntax escapes (\x01, \a, \v, \U0001f600) are not JSON.
+		s.pcAppendByte('"')
+		s.appendEscapedJSONString(str)
+		s.pcAppendByte('"')
+		return
+	}
 	s.PreAlloc(len(str)*2 + 2)
 	s.buf = appendQuotedWith(s.buf, str, '"', false, false)
 }
